@@ -1,6 +1,8 @@
 import PelGen.GenIoDrawer
+import PelGen.GenOe500
 import PelProofs.HwDiags
 import PelProofs.TieIoDrawer
+import PelProofs.TieOe500
 import PelProps.C20
 /-
   C20, source tie: the functions of modules/pel/hwdiags/parserdata.py that harness/trans_iodrawer.py regenerates from the
@@ -98,5 +100,213 @@ theorem hw_get_signature_fields_upper (g) (h : Pel.Gen.hw_get_signature? = some 
              (s "Attn Type", .str (attnDesc cd (hexFix 8 a) (sigFields a b c).attn))]) := by
   rw [hw_get_signature_hex g h cd _ _ _ (checkHex_hexFix8 a) (checkHex_hexFix8 b) (checkHex_hexFix8 c),
     C20.signature_fields_upper cd a b c ha hb hc]
+
+end Pel.Tie
+
+/-
+  C20, source tie, second half (stream `oe500`): the two shipped parser modules modules/udparsers/oe500/oe500.py and
+  modules/srcparsers/oe500/oe500.py, regenerated from the CURRENT source text by harness/trans_oe500.py
+  (lean/PelGen/GenOe500.lean), are equal to `oe500Ud` / `oe500Src`, the functions the ★ theorems `siglist_roundtrip`,
+  `regdump_roundtrip`, `src_words` (and `scratch_regs/sig`, `callout_ffdc`) are about.  Calls of `ParserData` methods appear in
+  the generated terms as the functions BEHIND THEIR ASSERTIONS (`IoSem.getSignatureA` …, tied to parserdata.py above); the
+  proofs show that the assertions hold on what the user-data parser passes:
+    * the hex words are `bytes.hex()` of `get_mem(n)` results, so they have the asserted length and consist of hex digits;
+    * the numbers are `get_int(n)` results, which are below `256^n` PROVIDED every element of the section data is a byte.
+  The model's `Bytes` is `List Nat`; on a list with an element above 255 `oe500Ud cd 2` (which has no assertions) and the source
+  (which would raise AssertionError) differ, so the register-dump tie carries the hypothesis `allBytes data` (the domain of the
+  model); the other sub-types need none.  The SRC parser hands its hex words to `get_signature` unchecked, so its tie states
+  the AssertionError explicitly (`.raises` unless words 6..8 are eight hex digits each).
+-/
+namespace Pel.Tie
+open Pel Pel.Oe
+
+/-- the body of the signature loop: three 4-byte words, `get_signature` does not raise on their `hex()` -/
+macro "oe_sig" : tactic => `(tactic| (
+  rw [oe500Ud_1_out]
+  refine counted_collect suffix_true _ trivial 4 (sigStep _) (Keeps.sigStep suffix_true _) _ (fun n i acc => ?_) _ _ (fun l => by first | rfl | simp [s])
+  simp only [sigStep, bind_assoc, pure_bind]
+  refine EqOn.bind_getMem suffix_true 4 fun a ha => ?_
+  refine EqOn.bind_getMem suffix_true 4 fun b hb => ?_
+  refine EqOn.bind_getMem suffix_true 4 fun c hc => ?_
+  simp only [getSignatureA_hex _ a b c ha hb hc, rdOfOption_some, pure_bind]
+  exact EqOn.refl))
+
+/-- `_parse_signature_list`: the count (width from the source), then per signature three reads (widths and order from the source), `hex()`,
+    `get_signature` with the words in source order, collected under the key the source uses -/
+theorem oe500_parse_signature_list (g) (h : Pel.Gen.oe500_parse_signature_list? = some g) :
+    g = fun cd _ver data => oe500Ud cd 1 data := by
+  cases h <;> (
+  funext cd ver data
+  oe_sig
+  )
+
+/-- the register dump: per chip four reads and `get_chip_desc` (no AssertionError: the numbers are `get_int` results of a byte stream),
+    the padded heading, then per register four reads, `get_reg_data`, the cropped / padded name and the data column in groups of four -/
+macro "oe_reg" : tactic => `(tactic| (
+  rw [oe500Ud_2_out]
+  refine counted_extend suffix_allBytes _ (by assumption) 4 (chipStep _) (Keeps.chipStep suffix_allBytes _) _ (fun n i acc => ?_) _ _
+    (fun l => by first | rfl | simp [s])
+  simp only [chipStep, bind_assoc, pure_bind]
+  refine EqOn.bind_getMem suffix_allBytes 4 fun ec hec => ?_
+  refine EqOn.bind_getInt 2 fun chip hchip => ?_
+  refine EqOn.bind_getInt 1 fun node hnode => ?_
+  refine EqOn.bind_getInt 4 fun nregs _ => ?_
+  simp only [chipDescA_hex _ ec node chip hec hnode hchip, rdOfOption_some, pure_bind, bind_pure]
+  refine inner_collect (regStep _ _) (Keeps.regStep suffix_allBytes _ _) _ _ _ _ (fun i acc => ?_)
+    (fun xs => by simp [chipHead, List.append_assoc])
+  simp only [regStep, bind_assoc, pure_bind]
+  refine EqOn.bind_getMem suffix_allBytes 3 fun rid hrid => ?_
+  refine EqOn.bind_getInt 1 fun inst hinst => ?_
+  refine EqOn.bind_getInt 1 fun size _ => ?_
+  refine EqOn.bind_getMem suffix_allBytes _ fun buf _ => ?_
+  simp only [regDataA_hex _ ec rid inst hec hrid hinst, rdOfOption_some, pure_bind]
+  refine EqOn.of_eq ?_
+  rw [forPure_chunks (bytesHexL buf) _ (fun _ _ => rfl)]
+  first | rfl | simp [regLineOf, IoSem.slice, s]))
+
+/-- `_parse_register_dump`, for section data that consists of bytes -/
+theorem oe500_parse_register_dump (g) (h : Pel.Gen.oe500_parse_register_dump? = some g) :
+    ∀ cd ver data, allBytes data = true → g cd ver data = oe500Ud cd 2 data := by
+  cases h <;> (
+  intro cd ver data hd
+  oe_reg
+  )
+
+/-- straight-line functions: the generated reader is the model's, up to the spelling of text literals and `dictOf` -/
+macro "oe_same" : tactic => `(tactic| first
+  | with_reducible rfl
+  | (simp [dictOf, objSet, s]; done)
+  | (simp only [dictOf, List.foldl, objSet]; with_reducible rfl))
+
+/-- `_parse_callout_ffdc`: trailing NULs stripped, UTF-8, `json.loads`, under the key the source uses -/
+theorem oe500_parse_callout_ffdc (g) (h : Pel.Gen.oe500_parse_callout_ffdc? = some g) :
+    g = fun cd _ver data => oe500Ud cd 3 data := by
+  cases h <;> (
+  funext cd ver data
+  rw [oe500Ud_3_out]
+  oe_same
+  )
+
+/-- `_parse_hb_scratch_regs`: four reads (widths and order from the source), "0x" + `hex()`, the two pairs as a dictionary
+    (Python's rule for a repeated key) -/
+theorem oe500_parse_hb_scratch_regs (g) (h : Pel.Gen.oe500_parse_hb_scratch_regs? = some g) :
+    g = fun cd _ver data => oe500Ud cd 4 data := by
+  cases h <;> (
+  funext cd ver data
+  rw [oe500Ud_4_out]
+  oe_same
+  )
+
+theorem oe500_parse_scratch_reg_sig (g) (h : Pel.Gen.oe500_parse_scratch_reg_sig? = some g) :
+    g = fun cd _ver data => oe500Ud cd 5 data := by
+  cases h <;> (
+  funext cd ver data
+  rw [oe500Ud_5_out]
+  oe_same
+  )
+
+/-- `_parse_default`: `json.dumps(None)` -/
+theorem oe500_parse_default (g) (h : Pel.Gen.oe500_parse_default? = some g) :
+    g = fun _cd _ver _data => .json .null := by
+  cases h <;> (
+  funext cd ver data
+  rfl
+  )
+
+/-- `parseUDToJson`: the sub-type numbers, which function each selects and the default are the source's; the six functions are
+    translated again where they are called (so this tie does not depend on their names) -/
+theorem oe500_parseUDToJson (g) (h : Pel.Gen.oe500_parseUDToJson? = some g) :
+    ∀ cd sub ver data, (sub = 2 → allBytes data = true) → g cd sub ver data = oe500Ud cd sub data := by
+  cases h <;> (
+  intro cd sub ver data hd
+  simp only [out_ite, out_tail, beq_iff_eq]
+  by_cases h1 : sub = 1
+  · subst h1; simp only [if_true]; oe_sig
+  by_cases h2 : sub = 2
+  · subst h2
+    have hd' : allBytes data = true := hd rfl
+    simp only [show (2 : Nat) = 1 ↔ False by decide, if_false, if_true]; oe_reg
+  by_cases h3 : sub = 3
+  · subst h3; simp only [show (3 : Nat) = 1 ↔ False by decide, show (3 : Nat) = 2 ↔ False by decide, if_false, if_true]
+    rw [oe500Ud_3_out]; oe_same
+  by_cases h4 : sub = 4
+  · subst h4
+    simp only [show (4 : Nat) = 1 ↔ False by decide, show (4 : Nat) = 2 ↔ False by decide, show (4 : Nat) = 3 ↔ False by decide, if_false, if_true]
+    rw [oe500Ud_4_out]; oe_same
+  by_cases h5 : sub = 5
+  · subst h5
+    simp only [show (5 : Nat) = 1 ↔ False by decide, show (5 : Nat) = 2 ↔ False by decide, show (5 : Nat) = 3 ↔ False by decide,
+      show (5 : Nat) = 4 ↔ False by decide, if_false, if_true]
+    rw [oe500Ud_5_out]; oe_same
+  simp only [h1, h2, h3, h4, h5, if_false]
+  rw [oe500Ud_other cd sub data h1 h2 h3 h4 h5]
+  )
+
+/-- `srcparsers.oe500.parseSRCToJson`: characters 6..7 of the reference code against the literal of the source, the two texts, the
+    two keys in source order, `get_signature` on words 6, 7, 8 (AssertionError unless each is eight hex digits) -/
+theorem oe500_parseSRCToJson (g) (h : Pel.Gen.oe500_parseSRCToJson? = some g) :
+    g = fun cd rc _w2 _w3 _w4 _w5 w6 w7 w8 _w9 =>
+      if IoSem.checkHex w6 4 && IoSem.checkHex w7 4 && IoSem.checkHex w8 4 then .json (oe500Src cd rc w6 w7 w8) else .raises := by
+  cases h <;> (
+  funext cd rc w2 w3 w4 w5 w6 w7 w8 w9
+  simp only [IoSem.getSignatureA, oe500Src, IoSem.slice_eq, beq_iff_eq, bne_iff_ne, ne_eq]
+  have hs : (s "10" : Text) = [49, 48] := rfl
+  simp only [hs, Nat.reduceSub, eq_comm (a := ([49, 48] : Text))]
+  by_cases hc : (IoSem.checkHex w6 4 && IoSem.checkHex w7 4 && IoSem.checkHex w8 4) = true <;>
+  by_cases hr : List.take 2 (List.drop 6 rc) = [49, 48] <;>
+  first
+    | (simp only [hc, hr, if_true, if_false, not_true_eq_false, not_false_eq_true, rdOfOption_some, pure_bind, Bool.false_eq_true]
+       rfl)
+    | (simp [hc, hr, rdOfOption, Oe.out, s]; try rfl)
+  )
+
+/-! ### ★ theorems of PelProps/C20.lean transported to the regenerated entry points -/
+
+/-- ★ `C20.siglist_roundtrip` for the regenerated `parseUDToJson`: a signature list of any length is listed completely and in order -/
+theorem oe500_siglist_roundtrip (g) (h : Pel.Gen.oe500_parseUDToJson? = some g) (cd : List ChipData) (ver : Nat)
+    (sigs : List (Nat × Nat × Nat)) (rest : Bytes)
+    (hs : ∀ x ∈ sigs, x.1 < 2^32 ∧ x.2.1 < 2^32 ∧ x.2.2 < 2^32) (hn : sigs.length < 2^32) :
+    g cd 1 ver (toBE 4 sigs.length ++ sigs.flatMap (fun x => toBE 4 x.1 ++ toBE 4 x.2.1 ++ toBE 4 x.2.2) ++ rest) =
+      .json (.obj [(s "Signature List",
+        .arr (sigs.map fun x => getSignature cd (hexFixL 8 x.1) (hexFixL 8 x.2.1) (hexFixL 8 x.2.2)))]) := by
+  rw [oe500_parseUDToJson g h cd 1 ver _ (fun e => absurd e (by decide))]
+  exact C20.siglist_roundtrip cd sigs rest hs hn
+
+theorem allBytes_regEnc (r : C20.AReg) (h : r.WF) : allBytes r.enc = true := by
+  obtain ⟨_, h2, _, h4, h5⟩ := h
+  simp only [C20.AReg.enc, allBytes_append, allBytes_toBE, Bool.true_and]
+  simp only [allBytes, List.all_cons, List.all_nil, decide_eq_true h2, decide_eq_true h4, Bool.true_and, Bool.and_true, List.all_eq_true,
+    decide_eq_true_eq]
+  exact h5
+
+theorem allBytes_chipEnc (c : C20.AChip) (h : c.WF) : allBytes c.enc = true := by
+  obtain ⟨_, _, h3, _, h5⟩ := h
+  simp only [C20.AChip.enc, allBytes_append, allBytes_toBE, Bool.true_and]
+  rw [allBytes_flatMap _ _ (fun r hr => allBytes_regEnc r (h5 r hr))]
+  simp [allBytes, h3]
+
+/-- ★ `C20.regdump_roundtrip` for the regenerated `parseUDToJson`: a register dump lists every chip and every register in order -/
+theorem oe500_regdump_roundtrip (g) (h : Pel.Gen.oe500_parseUDToJson? = some g) (cd : List ChipData) (ver : Nat)
+    (chips : List C20.AChip) (rest : Bytes) (hw : ∀ c ∈ chips, c.WF) (hn : chips.length < 2^32) (hr : allBytes rest = true) :
+    g cd 2 ver (toBE 4 chips.length ++ chips.flatMap (·.enc) ++ rest) =
+      .json (.obj [(s "Register Dump", .arr ((chips.flatMap (C20.chipLines cd)).map .str))]) := by
+  rw [oe500_parseUDToJson g h cd 2 ver _ (fun _ => by
+    simp only [allBytes_append, allBytes_toBE, hr, allBytes_flatMap _ _ (fun c hc => allBytes_chipEnc c (hw c hc)), Bool.and_self])]
+  exact C20.regdump_roundtrip cd chips rest hw hn
+
+/-- ★ `C20.src_words` for the regenerated `parseSRCToJson`, on hex words as `SRC.parse` passes them -/
+theorem oe500_src_words (g) (h : Pel.Gen.oe500_parseSRCToJson? = some g) (cd : List ChipData) (rc w2 w3 w4 w5 w6 w7 w8 w9 : Text)
+    (h6 : IoSem.checkHex w6 4 = true) (h7 : IoSem.checkHex w7 4 = true) (h8 : IoSem.checkHex w8 4 = true) :
+    g cd rc w2 w3 w4 w5 w6 w7 w8 w9 =
+      .json (.obj [(s "Primary Attention", .str (if (rc.drop 6).take 2 = s "10" then s "system checkstop" else s "secondary analysis")),
+                   (s "Signature Description", getSignature cd w6 w7 w8)]) := by
+  rw [oe500_parseSRCToJson g h]
+  simp only [h6, h7, h8, Bool.and_self, if_true, C20.src_words]
+
+/-- the hex words of an SRC (`hexFix 8` of a 32-bit word) pass the assertions -/
+theorem oe500_src_words_hex (g) (h : Pel.Gen.oe500_parseSRCToJson? = some g) (cd : List ChipData) (rc w2 w3 w4 w5 w9 : Text) (a b c : Nat) :
+    g cd rc w2 w3 w4 w5 (hexFix 8 a) (hexFix 8 b) (hexFix 8 c) w9 = .json (oe500Src cd rc (hexFix 8 a) (hexFix 8 b) (hexFix 8 c)) := by
+  rw [oe500_parseSRCToJson g h]
+  simp only [checkHex_hexFix8, Bool.and_self, if_true]
 
 end Pel.Tie
